@@ -404,12 +404,13 @@ func vfIntersect(a, b []int) []int {
 func TestVerifC03Probes(t *testing.T) {
 	vfSetup(t)
 	c := ev.For("C03")
-	c.Rule("probes: per case one generated bridge (seed), 2-5 probe connections of generated classes (empty, random bytes up to 20000 and floods of 64 KiB .. 1 MiB, valid handshake truncated / extended / one bit flipped in representative, padding, mark or MAC, wrong hour +-2/3, wrong identity, byte-identical replay of an accepted handshake (in one set-up of four the genuine client's connection broke while the bridge was writing its reply - write error at byte 0, 1, 96 or 500 -, the handshake has been presented all the same; in one set-up of ten with the bridge's replay filter brought to its capacity of 102400 around it, the genuine handshake not among the eldest), in half of the cases on a connection that was opened before the genuine client connected (whose genuine session has meanwhile carried a burst sized around the handshake's own length), low-order representatives with a valid MAC), each released in generated segments with the armed deadline optionally fired in between, ended by peer disconnect or by firing the virtual deadlines; the last connection goes to a second factory built from the same seed; oracle: accepted handshakes are remembered for at least the three hours they stay valid, zero bytes written, everything sent is consumed, close only after the last armed deadline fired (unless the peer left first), deadline armed before the first read, final deadline = accept + 30 s + d with one whole d in 0..59 common to all connections of the seed; non-trivial = any class other than 'empty'; fingerprint = class, parameters, plan")
+	c.Rule("probes: per case one generated bridge (seed), 2-5 probe connections of generated classes (empty, random bytes up to 20000 and floods of 64 KiB .. 1 MiB, valid handshake truncated / extended / one bit flipped in representative, padding, mark or MAC, wrong hour +-2/3, wrong identity, byte-identical replay of an accepted handshake (stamped with the bridge's current hour or, in half of the set-ups, the previous / next one; in one set-up of four the genuine client's connection broke while the bridge was writing its reply - write error at byte 0, 1, 96 or 500 -, the handshake has been presented all the same; in one set-up of ten with the bridge's replay filter brought to its capacity of 102400 around it, the genuine handshake not among the eldest), in half of the cases on a connection that was opened before the genuine client connected (whose genuine session has meanwhile carried a burst sized around the handshake's own length), low-order representatives with a valid MAC), each released in generated segments with the armed deadline optionally fired in between, ended by peer disconnect or by firing the virtual deadlines; the last connection goes to a second factory built from the same seed; oracle: accepted handshakes are remembered for at least the three hours they stay valid, zero bytes written, everything sent is consumed, close only after the last armed deadline fired (unless the peer left first), deadline armed before the first read, final deadline = accept + 30 s + d with one whole d in 0..59 common to all connections of the seed; non-trivial = any class other than 'empty'; fingerprint = class, parameters, plan")
 	c.Assume("deadline values are judged as intervals around the server's own clock reading (a few ms wide); cases measured on a stalled machine (> 0.5 s between accept and first deadline call) are discarded and counted")
 	for _, cl := range vfProbeClasses {
 		c.Floor("probe-"+cl+"/probe", 0.03)
 	}
 	c.Floor("probe-replay-of-handshake-whose-reply-failed/probe-replay", 0.08)
+	c.Floor("probe-replay-of-handshake-stamped-adjacent-hour/probe-replay", 0.15)
 	rapid.Check(t, func(rt *rapid.T) {
 		rk := rapid.Uint64().Draw(rt, "randKey")
 		defer vfRandSeedKey(rk)()
@@ -437,6 +438,7 @@ func TestVerifC03Probes(t *testing.T) {
 		}
 		var prior []byte
 		replyFailed := false
+		skewedGenuine := false
 		var earlyConn *vfSrvConn
 		var cand []int
 		haveCand := false
@@ -474,6 +476,12 @@ func TestVerifC03Probes(t *testing.T) {
 				// one set-up in four: the genuine client's connection breaks while the bridge writes its
 				// reply (write error at the first byte or later).  The handshake has been presented all
 				// the same, whoever recorded it replays it: silence
+				// the genuine client's clock may be off by up to an hour either way: its handshake is
+				// valid (stamped with the previous / next hour of the bridge's clock) and its replay is a replay
+				gOff := int64(rapid.SampledFrom([]int{0, 0, -1, 1}).Draw(rt, "genuineHourOffset"))
+				if gOff != 0 {
+					skewedGenuine = true
+				}
 				if !atCap && rapid.IntRange(0, 3).Draw(rt, "genuineReplyFails") == 0 {
 					scf, ferr := vfOpenServerConn(sf)
 					if scf != nil {
@@ -483,7 +491,7 @@ func TestVerifC03Probes(t *testing.T) {
 						rt.Fatalf("VIOL[c03-wedge]: %v", ferr)
 					}
 					clf := &refobfs4.Client{ID: refobfs4.Identity{Pub: br.ID.Pub, NodeID: br.ID.NodeID}, Key: refobfs4.NewEKey(ent),
-						Pad: ent(refobfs4.ClientMinPad + int(ent(1)[0])), Hour: hour0}
+						Pad: ent(refobfs4.ClientMinPad + int(ent(1)[0])), Hour: hour0 + gOff}
 					hsf := append([]byte(nil), clf.Handshake()...)
 					scf.n.WriteErrAt(wire.B, int64(rapid.SampledFrom([]int{0, 0, 1, 96, 500}).Draw(rt, "replyFailsAt")), vf10Err)
 					scf.n.Inject(wire.A, hsf)
@@ -499,7 +507,7 @@ func TestVerifC03Probes(t *testing.T) {
 					}
 					prior = hsf
 				} else {
-				hs, ok, resp0, cl0, sc0, err := vfAcceptOne(sf, br, ent, 0)
+				hs, ok, resp0, cl0, sc0, err := vfAcceptOne(sf, br, ent, gOff)
 				if sc0 != nil {
 					defer sc0.n.Shutdown()
 				}
@@ -510,7 +518,7 @@ func TestVerifC03Probes(t *testing.T) {
 					if vfHourNow() != hour0 {
 						rt.Skip("hour changed")
 					}
-					rt.Fatalf("VIOL[c03-valid-rejected]: a valid fresh handshake was not accepted (set-up of the replay class): %v", sc0.ep.SetupErr())
+					rt.Fatalf("VIOL[c03-valid-rejected]: a valid fresh handshake (stamped hour %+d) was not accepted (set-up of the replay class): %v", gOff, sc0.ep.SetupErr())
 				}
 				prior = hs
 				if atCap {
@@ -613,6 +621,9 @@ func TestVerifC03Probes(t *testing.T) {
 			cl := []string{"probe", "probe-" + d.cls}
 			if d.cls == "replay" && replyFailed {
 				cl = append(cl, "probe-replay-of-handshake-whose-reply-failed")
+			}
+			if d.cls == "replay" && skewedGenuine {
+				cl = append(cl, "probe-replay-of-handshake-stamped-adjacent-hour")
 			}
 			c.Case(d.fp, d.cls != "empty", cl, func() any { return map[string]any{"probe": d.desc, "seed": ev.Hex(br.Seed)} })
 		}
